@@ -48,7 +48,7 @@ func vpSurvivors(batches [][]*vpDoc, dropped [][]bool) []*vpDoc {
 	return out
 }
 
-var vpMergeTemplates = []int{1, 2, 3, 5, 7, 9}
+var vpMergeTemplates = []int{1, 2, 3, 5, 7, 9, 10}
 
 // vpSegOf turns a batch into a segment: built in memory, or persisted and loaded.
 func vpSegOf(tag string, docs []*vpDoc, mode uint32) *Segment {
@@ -163,13 +163,14 @@ func vpH_C02_merge3() {
 func vpH_C03_docnums() {
 	g := vpNewGen(0)
 	k := 1 + vpChoice("nsegs", 3)
+	maxDocs := 2
 	if !vpThorough() && k == 3 {
-		vpAssume(false)
+		maxDocs = 1 // quick: three segments of at most one document
 	}
 	var batches [][]*vpDoc
 	var segs []segment.Segment
 	for i := 0; i < k; i++ {
-		b := g.batch("S", 0, 2, []int{1, 5})
+		b := g.batch("S", 0, maxDocs, []int{1, 5})
 		vpSetLengths(b)
 		batches = append(batches, b)
 		segs = append(segs, vpBuild(b, 1025))
